@@ -187,6 +187,23 @@ func (err *wrapError) Error() string {
 }
 
 func (loc *SourceLoc) writeTo(w stringWriter, indent string) {
+	loc.writeToFrom(w, indent, nil)
+}
+
+// writeToFrom writes the location and the chain of includes leading to it.
+// chain holds the files already on that chain: if the files include each
+// other in a cycle, the chain is cut where it would repeat.
+func (loc *SourceLoc) writeToFrom(w stringWriter, indent string, chain []*SourceFile) {
+	if loc.File != nil {
+		for _, f := range chain {
+			if f == loc.File {
+				fmt.Fprintf(w, "%s:%d (include cycle)",
+					loc.File.FullPath, loc.Line)
+				return
+			}
+		}
+		chain = append(chain[:len(chain):len(chain)], loc.File)
+	}
 	if loc.File == nil ||
 		loc.File.FullPath == "" && len(loc.File.IncludedFrom) == 0 {
 		fmt.Fprintf(w, "line %d", loc.Line)
@@ -197,14 +214,14 @@ func (loc *SourceLoc) writeTo(w stringWriter, indent string) {
 		fmt.Fprintf(w, "%s:%d\n%s    included from ",
 			loc.File.FullPath, loc.Line,
 			indent)
-		loc.File.IncludedFrom[0].writeTo(w, indent)
+		loc.File.IncludedFrom[0].writeToFrom(w, indent, chain)
 	} else {
 		newIndent := indent + "    "
 		fmt.Fprintf(w, "%s:%d included from:",
 			loc.File.FullPath, loc.Line)
 		for i, inc := range loc.File.IncludedFrom {
 			fmt.Fprintf(w, "\n%s[%d] ", newIndent, i)
-			inc.writeTo(w, newIndent)
+			inc.writeToFrom(w, newIndent, chain)
 		}
 	}
 }
